@@ -98,16 +98,73 @@ fn reg_remove(p: usize) -> bool {
     false
 }
 
-unsafe fn guard_alloc(layout: Layout) -> *mut u8 {
-    let size = layout.size();
+// munmap costs about a millisecond in this kind of VM, so freed guarded mappings of up to
+// POOL_MAX bytes are kept (guard page in place) and handed out again for the next request of the
+// same page-rounded size. A use after free of such a block is therefore not caught; an access
+// behind the end of a live block still is, which is what the guard mode is for.
+const POOL_SLOTS: usize = 96;
+const POOL_MAX: usize = 16 << 20;
+const POOL_BYTES_MAX: usize = 192 << 20;
+static POOL_BYTES: AtomicUsize = AtomicUsize::new(0);
+
+/// Mapping size for a request: whole pages up to 64 KiB, above that the next multiple of an
+/// eighth of the enclosing power of two, so that requests of similar size share mappings.
+fn size_class(size: usize) -> usize {
     let rounded = (size + PAGE - 1) & !(PAGE - 1);
-    let total = rounded + PAGE;
-    let base = libc::mmap(std::ptr::null_mut(), total, libc::PROT_READ | libc::PROT_WRITE, libc::MAP_PRIVATE | libc::MAP_ANONYMOUS, -1, 0);
-    if base == libc::MAP_FAILED {
-        return std::ptr::null_mut();
+    if rounded <= (64 << 10) {
+        return rounded;
     }
-    let base = base as usize;
-    libc::mprotect((base + rounded) as *mut libc::c_void, PAGE, libc::PROT_NONE);
+    let step = (rounded.next_power_of_two() >> 4).max(PAGE);
+    (rounded + step - 1) / step * step
+}
+static POOL_BASE: [AtomicUsize; POOL_SLOTS] = [REG_ZERO; POOL_SLOTS];
+static POOL_SIZE: [AtomicUsize; POOL_SLOTS] = [REG_ZERO; POOL_SLOTS];
+
+fn pool_take(rounded: usize) -> usize {
+    for i in 0..POOL_SLOTS {
+        if POOL_SIZE[i].load(Relaxed) == rounded {
+            let b = POOL_BASE[i].swap(0, Relaxed);
+            if b != 0 {
+                POOL_SIZE[i].store(0, Relaxed);
+                POOL_BYTES.fetch_sub(rounded, Relaxed);
+                return b;
+            }
+        }
+    }
+    0
+}
+
+fn pool_put(base: usize, rounded: usize) -> bool {
+    if rounded > POOL_MAX || POOL_BYTES.load(Relaxed) + rounded > POOL_BYTES_MAX {
+        return false;
+    }
+    for i in 0..POOL_SLOTS {
+        if POOL_SIZE[i].compare_exchange(0, rounded, Relaxed, Relaxed).is_ok() {
+            POOL_BASE[i].store(base, Relaxed);
+            POOL_BYTES.fetch_add(rounded, Relaxed);
+            return true;
+        }
+    }
+    false
+}
+
+unsafe fn guard_alloc(layout: Layout, zeroed: bool) -> *mut u8 {
+    let size = layout.size();
+    let rounded = size_class(size);
+    let total = rounded + PAGE;
+    let mut base = pool_take(rounded);
+    if base != 0 {
+        if zeroed {
+            std::ptr::write_bytes(base as *mut u8, 0, rounded);
+        }
+    } else {
+        let m = libc::mmap(std::ptr::null_mut(), total, libc::PROT_READ | libc::PROT_WRITE, libc::MAP_PRIVATE | libc::MAP_ANONYMOUS, -1, 0);
+        if m == libc::MAP_FAILED {
+            return std::ptr::null_mut();
+        }
+        base = m as usize;
+        libc::mprotect((base + rounded) as *mut libc::c_void, PAGE, libc::PROT_NONE);
+    }
     // the end of the block abuts the guard page (as closely as the alignment allows)
     let user = (base + rounded - size) & !(layout.align() - 1);
     if !reg_insert(user) {
@@ -123,15 +180,13 @@ unsafe fn guard_dealloc(ptr: *mut u8, layout: Layout) -> bool {
     if !reg_remove(user) {
         return false;
     }
-    let rounded = (layout.size() + PAGE - 1) & !(PAGE - 1);
-    let base = user & !(PAGE - 1);
-    // `user` lies in the first page of the mapping unless alignment pushed it down, in which
-    // case it is still inside [base_of_mapping, base_of_mapping + PAGE): recompute from the end
-    let end = base + PAGE; // upper bound of the first page containing user
-    let _ = end;
+    let rounded = size_class(layout.size());
+    // the block ends (up to alignment slack) at the guard page: recompute the mapping from there
     let mapping = (user + layout.size() + PAGE - 1) & !(PAGE - 1); // = start of the guard page (rounded up end)
     let start = mapping - rounded;
-    libc::munmap(start as *mut libc::c_void, rounded + PAGE);
+    if !pool_put(start, rounded) {
+        libc::munmap(start as *mut libc::c_void, rounded + PAGE);
+    }
     true
 }
 
@@ -150,7 +205,7 @@ unsafe impl GlobalAlloc for SimAlloc {
             return std::ptr::null_mut();
         }
         if GUARD.load(Relaxed) != 0 && layout.size() >= GUARD_MIN && layout.align() <= PAGE {
-            let p = guard_alloc(layout);
+            let p = guard_alloc(layout, false);
             if !p.is_null() {
                 on_alloc(layout.size());
                 let j = JUNK.load(Relaxed);
@@ -184,8 +239,8 @@ unsafe impl GlobalAlloc for SimAlloc {
             return std::ptr::null_mut();
         }
         if GUARD.load(Relaxed) != 0 && layout.size() >= GUARD_MIN && layout.align() <= PAGE {
-            // fresh anonymous mappings are zero-filled
-            let p = guard_alloc(layout);
+            // fresh anonymous mappings are zero-filled, recycled ones are cleared
+            let p = guard_alloc(layout, true);
             if !p.is_null() {
                 on_alloc(layout.size());
             }
